@@ -1173,3 +1173,35 @@ def p_r14_feed_dispatches_the_current_match(p: Project, rep: Report):
             a = a.value if isinstance(a, ast.Starred) else a
             bad = bad or stored_source(a)
         rep.check("P-R14", "feed:dispatches-what-this-match-holds", bad is None, f"an argument of _feedmatch is read from {bad}: a value kept from an earlier match - a token memo whose key omits one of the groups (the CDATA data, say) hands a later element the earlier element's data" if bad else "", ploc(p, c_))
+
+
+def p_r15_match_patterns_do_not_rebind(p: Project, rep: Report, modules=(PARSER,)):
+    """a bare name in a match pattern CAPTURES; it never compares"""
+    rep.rule("P-R15", "no `case` pattern of the parser binds a name that is a parameter or an existing local of the function: a bare name in a pattern (`case [*_, tag]:`) is a CAPTURE - it matches anything and re-binds the name - not a comparison with the variable's value (that takes a dotted name, a literal, or a guard).  An end-tag check rewritten as `match self._open: case [*_, tag]` accepts every end tag whatever element is open")
+    n = 0
+    for modname in modules:
+        m = p.module(modname)
+        for qn, cls, fn in m.functions():
+            names = set(params_of(fn))
+            for st in ast.walk(fn):
+                if isinstance(st, (ast.Assign, ast.AnnAssign, ast.AugAssign, ast.For)):
+                    for t in ast.walk(st.targets[0] if isinstance(st, ast.Assign) else st.target):
+                        if isinstance(t, ast.Name):
+                            names.add(t.id)
+            for mt in ast.walk(fn):
+                if not isinstance(mt, ast.Match):
+                    continue
+                for case in mt.cases:
+                    for pat in ast.walk(case.pattern):
+                        nm = None
+                        if isinstance(pat, ast.MatchAs) and pat.name is not None:
+                            nm = pat.name
+                        elif isinstance(pat, ast.MatchStar) and pat.name is not None and pat.name != "_":
+                            nm = pat.name
+                        if nm is None:
+                            continue
+                        n += 1
+                        clash = nm in names
+                        rep.check("P-R15", f"{qn}:case-binds:{nm}", not clash, f"{qn}: the pattern `{ast.unparse(case.pattern)[:40]}` binds `{nm}`, which is already a parameter / local of the function: the pattern does not compare with its value, it matches anything and overwrites it - the check this `case` was meant to make is not made" if clash else "", f"{m.relpath}:{case.pattern.lineno}")
+    rep.unit("match_captures", n)
+    rep.check("P-R15", "parser:no-rebinding-captures", True, "", f"{n} capture patterns in {', '.join(modules)}")
